@@ -26,6 +26,7 @@
 from __future__ import annotations
 
 import asyncio
+import functools
 import logging
 import struct
 from collections import defaultdict
@@ -75,6 +76,40 @@ def _bearer_id(bearer: att.Bearer) -> str:
         return f'[0x{bearer.connection.handle:04X}|CID=0x{bearer.source_cid:04X}]'
     else:
         return f'[0x{bearer.handle:04X}]'
+
+
+def _att_request_handler(handler):
+    '''
+    Decorator for the asynchronous ATT request handlers.
+
+    The handler runs in its own task. An exception that it does not handle itself
+    (for instance one raised by an attribute value's read or write function) is
+    answered with an Error Response, the same way `Server.on_gatt_pdu` does for
+    synchronous handlers, so that a request never remains unanswered.
+    '''
+
+    @functools.wraps(handler)
+    async def guarded(self: Server, bearer: att.Bearer, request: att.ATT_PDU):
+        try:
+            await handler(self, bearer, request)
+        except att.ATT_Error as error:
+            logger.debug(f'normal exception returned by handler: {error}')
+            response = att.ATT_Error_Response(
+                request_opcode_in_error=request.op_code,
+                attribute_handle_in_error=error.att_handle,
+                error_code=error.error_code,
+            )
+            self.send_response(bearer, response)
+        except Exception:
+            logger.exception(color("!!! Exception in handler:", "red"))
+            response = att.ATT_Error_Response(
+                request_opcode_in_error=request.op_code,
+                attribute_handle_in_error=0x0000,
+                error_code=att.ATT_UNLIKELY_ERROR_ERROR,
+            )
+            self.send_response(bearer, response)
+
+    return utils.AsyncRunner.run_in_task()(guarded)
 
 
 # -----------------------------------------------------------------------------
@@ -746,7 +781,7 @@ class Server(utils.EventEmitter):
 
         self.send_response(bearer, response)
 
-    @utils.AsyncRunner.run_in_task()
+    @_att_request_handler
     async def on_att_find_by_type_value_request(
         self, bearer: att.Bearer, request: att.ATT_Find_By_Type_Value_Request
     ):
@@ -809,7 +844,7 @@ class Server(utils.EventEmitter):
 
         self.send_response(bearer, response)
 
-    @utils.AsyncRunner.run_in_task()
+    @_att_request_handler
     async def on_att_read_by_type_request(
         self, bearer: att.Bearer, request: att.ATT_Read_By_Type_Request
     ):
@@ -889,7 +924,7 @@ class Server(utils.EventEmitter):
 
         self.send_response(bearer, response)
 
-    @utils.AsyncRunner.run_in_task()
+    @_att_request_handler
     async def on_att_read_request(
         self, bearer: att.Bearer, request: att.ATT_Read_Request
     ):
@@ -918,7 +953,7 @@ class Server(utils.EventEmitter):
             )
         self.send_response(bearer, response)
 
-    @utils.AsyncRunner.run_in_task()
+    @_att_request_handler
     async def on_att_read_blob_request(
         self, bearer: att.Bearer, request: att.ATT_Read_Blob_Request
     ):
@@ -966,7 +1001,7 @@ class Server(utils.EventEmitter):
             )
         self.send_response(bearer, response)
 
-    @utils.AsyncRunner.run_in_task()
+    @_att_request_handler
     async def on_att_read_by_group_type_request(
         self, bearer: att.Bearer, request: att.ATT_Read_By_Group_Type_Request
     ):
@@ -1045,7 +1080,7 @@ class Server(utils.EventEmitter):
 
         self.send_response(bearer, response)
 
-    @utils.AsyncRunner.run_in_task()
+    @_att_request_handler
     async def on_att_read_multiple_request(
         self, bearer: att.Bearer, request: att.ATT_Read_Multiple_Request
     ):
@@ -1095,7 +1130,7 @@ class Server(utils.EventEmitter):
         response = att.ATT_Read_Multiple_Response(set_of_values=b''.join(values))
         self.send_response(bearer, response)
 
-    @utils.AsyncRunner.run_in_task()
+    @_att_request_handler
     async def on_att_read_multiple_variable_request(
         self, bearer: att.Bearer, request: att.ATT_Read_Multiple_Variable_Request
     ):
@@ -1150,7 +1185,7 @@ class Server(utils.EventEmitter):
         )
         self.send_response(bearer, response)
 
-    @utils.AsyncRunner.run_in_task()
+    @_att_request_handler
     async def on_att_write_request(
         self, bearer: att.Bearer, request: att.ATT_Write_Request
     ):
